@@ -6,6 +6,7 @@ from .. import common
 from .. import fam_calib as fc
 from .. import fam_mat as fmat
 from .. import fam_pipeline as fp
+from .. import fam_recipe as fr
 from .. import gen_models as gm
 from .. import pipeline as pl
 from .. import oracles as orc
@@ -65,6 +66,52 @@ def selection_oracle(ctx, case, q):
         ctx.tag("scope_oracle_unavailable")
 
 
+def registered_algorithm(ctx):
+    """`algorithm_key` accepts every algorithm registered through the public algorithm-manager API: an algorithm that is the min/max
+    one under another name must calibrate and quantize exactly like it (runs LAST: registration is process-global; the model's
+    tables were extracted before)"""
+    import numpy as np
+    from ai_edge_quantizer import algorithm_manager, default_policy, quantizer as qz, qtyping
+    from ai_edge_quantizer.algorithms.uniform_quantize import naive_min_max_quantize as nmm
+    key = "verif_min_max_clone"
+    try:
+        algorithm_manager.register_op_quant_config_validation_func(key, nmm.check_op_quantization_config)
+        algorithm_manager.register_config_check_policy_func(key, default_policy.DEFAULT_CONFIG_CHECK_POLICY)
+        for op_name, fn in ((qtyping.TFLOperationName.INPUT, nmm.materialize_input), (qtyping.TFLOperationName.OUTPUT, nmm.materialize_output),
+                            (qtyping.TFLOperationName.FULLY_CONNECTED, nmm.materialize_fc_conv), (qtyping.TFLOperationName.TANH, nmm.materialize_tanh)):
+            algorithm_manager.register_quantized_op(key, op_name, nmm.init_qsvs, calibration_func=nmm.min_max_calibrate, materialize_func=fn)
+    except Exception:  # noqa: BLE001  (registration API renamed: the probe is skipped, everything else stands)
+        ctx.tag("registered_algorithm_probe_unavailable")
+        return
+    rng = ctx.rng
+    for j in range(6):
+        mb, info = gm.gen_model(rng, n_ops=rng.randint(1, 3), n_subgraphs=1, kinds=["FULLY_CONNECTED", "TANH"], p_unsupported=0.0, alias_sig=0.0)
+        data = gm.random_inputs(mb, rng, n=2)
+        outs = {}
+        for alg in ("min_max_uniform_quantize", key):
+            q = qz.Quantizer(mb)
+            for op in ("FULLY_CONNECTED", "TANH", "INPUT", "OUTPUT"):
+                q.update_quantization_recipe(".*", op, fr.mk_cfg(pl.UNIFORM["a8w8"]), alg)
+            replay = {"model_ops": info["subgraphs"][0]["ops"], "algorithm_key": alg, "registered_like": "min_max_uniform_quantize"}
+            if not q.need_calibration:
+                ctx.fail(f"need_calibration is False for static-range rules of the registered algorithm {alg!r}", replay, "registered-alg-need-calibration")
+                return
+            cr = None
+            for sig, samples in data.items():
+                cr = q.calibrate(samples, signature_key=sig, previous_calibration_result=cr)
+            try:
+                outs[alg] = bytes(q.quantize(cr).quantized_model)
+            except Exception as e:  # noqa: BLE001
+                ctx.fail(f"calibrate() then quantize() fails under the registered algorithm {alg!r}: {type(e).__name__}: {str(e)[:120]}", replay, "registered-alg-missing-stats")
+                return
+        ctx.case({"registered_algorithm": key, "ops": info["subgraphs"][0]["ops"]}, True)
+        ctx.tag("registered_algorithm_compared")
+        if outs["min_max_uniform_quantize"] != outs[key]:
+            ctx.fail("an algorithm registered with the min/max functions under another key produces another model than min/max itself",
+                     {"model_ops": info["subgraphs"][0]["ops"]}, "registered-alg-differs")
+            return
+
+
 def run(ctx):
     ctx.rule = ("generated single- and multi-signature models x recipes whose rules use regexes built from the model's tensor names (anchored, "
                 "with ';' separators, prefixes, alternatives, non-matching) x op selectors x configs; calibrate() then quantize() with its "
@@ -109,6 +156,7 @@ def run(ctx):
                 ctx.fail("quantize() after calibrate() failed for missing statistics: " + msg[:160], case.replay(), "missing-stats")
             ctx.errkinds[type(e).__name__] = ctx.errkinds.get(type(e).__name__, 0) + 1
         fmat.cmp_pipeline(ctx, drv, case.mb, q, cr, out)
+    registered_algorithm(ctx)
     drv.close()
     return common.finish(ctx)
 
